@@ -404,14 +404,15 @@ impl<R: RefCounter, PR: PathRefCounter, H: Header> Memory<R, PR, H> {
           // initialize the memory with 0
           ptr::write_bytes(ptr, 0, cap);
 
+          // Safety: we have add the overhead for the header
+          header_ptr.write(Header::new(data_offset as u32, min_segment_size));
+
+          // the file is recognized by the sanity bytes, so write them only when the header is complete.
           super::write_sanity(
             freelist as u8,
             magic_version,
             slice::from_raw_parts_mut(ptr.add(reserved), mem::align_of::<H>()),
           );
-
-          // Safety: we have add the overhead for the header
-          header_ptr.write(Header::new(data_offset as u32, min_segment_size));
 
           (CURRENT_VERSION, magic_version)
         } else {
@@ -422,6 +423,11 @@ impl<R: RefCounter, PR: PathRefCounter, H: Header> Memory<R, PR, H> {
           )?;
 
           let allocated = (*header_ptr).load_allocated() as usize;
+          if allocated < data_offset || allocated > cap {
+            return Err(invalid_input(
+              "the allocated size stored in the file is out of the bounds of the memory map",
+            ));
+          }
 
           if cap > allocated {
             ptr::write_bytes(ptr.add(allocated), 0, cap - allocated as usize);
@@ -571,6 +577,13 @@ impl<R: RefCounter, PR: PathRefCounter, H: Header> Memory<R, PR, H> {
           &mmap[reserved..reserved + mem::align_of::<H>()],
         )?;
         let data_offset = header_ptr_offset + mem::size_of::<H>();
+
+        let allocated = (*ptr.add(header_ptr_offset).cast::<H>()).load_allocated() as usize;
+        if allocated < data_offset || allocated > len {
+          return Err(invalid_input(
+            "the allocated size stored in the file is out of the bounds of the memory map",
+          ));
+        }
 
         let this = Self {
           cap: len as u32,
